@@ -4,6 +4,7 @@ package main
 // Every random choice comes from one splitmix64 stream seeded by VERIF_SEED.
 
 import (
+	"math/big"
 	"strconv"
 	"encoding/base32"
 	"encoding/binary"
@@ -30,9 +31,37 @@ func (r *rng) bytes(n int) []byte {
 }
 func pick[T any](r *rng, xs []T) T { return xs[r.intn(len(xs))] }
 
-var keyLens = []int{0, 1, 5, 10, 19, 20, 20, 20, 21, 32, 32, 63, 64, 64, 65, 127, 128, 129, 200}
+var keyLens = []int{0, 1, 5, 10, 19, 20, 20, 20, 21, 32, 32, 63, 64, 64, 65, 127, 128, 128, 129, 130, 200, 255, 256, 257, 300}
+
+// lastKey: the previous key handed out; a related key keeps its length and most of its bytes (a long common prefix, another
+// tail; one flipped byte; the block-size prefix kept) — two secrets that any digest, prefix or length shortcut confuses
+var lastKey []byte
 
 func genKey(r *rng) []byte {
+	k := genKey0(r)
+	if len(lastKey) > 0 && r.intn(6) == 0 {
+		k = append([]byte{}, lastKey...)
+		switch r.intn(4) {
+		case 0:
+			k[len(k)-1] ^= byte(1 + r.intn(255))
+		case 1:
+			k[r.intn(len(k))] ^= 1 << uint(r.intn(8))
+		case 2:
+			for _, cut := range []int{128, 64, 32, 20} {
+				if len(k) > cut {
+					copy(k[cut:], r.bytes(len(k)-cut))
+					break
+				}
+			}
+		default:
+			k[0] ^= 0x80
+		}
+	}
+	lastKey = k
+	return k
+}
+
+func genKey0(r *rng) []byte {
 	n := pick(r, keyLens)
 	switch r.intn(8) {
 	case 0:
@@ -1121,6 +1150,18 @@ func grammarEnum(stride int) []string {
 // ---------- C17 ----------
 
 func decString(r *rng) string {
+	if r.intn(7) == 0 {
+		// around a power of two (word and limb boundaries of any big-number arithmetic): 2^k + d, 2^j + 2^k + d
+		v := new(big.Int).Lsh(big.NewInt(1), uint(pick(r, []int{8, 16, 31, 32, 33, 53, 63, 64, 64, 65, 96, 96, 127, 128, 128, 160, 192, 255, 256, 512, 1023})))
+		if r.intn(3) == 0 {
+			v.Add(v, new(big.Int).Lsh(big.NewInt(1), uint(pick(r, []int{0, 8, 32, 32, 64}))))
+		}
+		v.Add(v, big.NewInt(int64(r.intn(19)-9)))
+		if r.intn(4) == 0 {
+			v.Mul(v, big.NewInt(int64(1+r.intn(9))))
+		}
+		return v.Abs(v).String()
+	}
 	switch r.intn(12) {
 	case 0:
 		return pick(r, []string{"", "0", "00", "1", "18446744073709551615", "18446744073709551616", "99999999999999999999", "72057594037927936", "72057594037927941", "255", "256"})
